@@ -25,6 +25,9 @@ FIX = [
     ("1001****", "Out of range params %d", "0, 5, 3, 9", "m.cpp", 90),
     ("30******", "Duty cycle now %d%", "4", "pc.cpp", 95),
     ("31******", "Mode %y set, margin 5%", "3", "pc.cpp", 96),
+    ("33******", "Load at 100%% now", "", "pc.cpp", 97),
+    ("34******", "Duty %d%% of max", "4", "pc.cpp", 98),
+    ("15a4c0de", "Lower case exact", "", "lc.cpp", 99),
 ]
 
 
@@ -75,7 +78,7 @@ HARNESSES = [
     {"fn": "h_timestamp", "cases": ["h%d" % h for h in range(19)] + ["ffff"], "quick_cases": ["h0", "h9", "h10", "h18", "ffff"],
      "timeout": {"quick": 90, "thorough": 300}},
     {"fn": "h_first_match", "cases": ["hi:%X" % n for n in (0x0, 0x1, 0xE, 0xF)] + ["stub"], "quick_cases": ["hi:0", "hi:E", "hi:F", "stub"], "timeout": {"quick": 120, "thorough": 400}},
-    {"fn": "h_message", "cases": ["E308", "0200", "10m", "1001", "F20C", "quote", "E226", "30pc", "31y"], "quick_cases": ["E308", "1001", "0200", "E226", "30pc", "31y"],
+    {"fn": "h_message", "cases": ["E308", "0200", "10m", "1001", "F20C", "quote", "E226", "30pc", "31y", "33pp", "34pp", "15lc"], "quick_cases": ["E308", "1001", "0200", "E226", "30pc", "31y", "33pp", "34pp", "15lc"],
      "timeout": {"quick": 90, "thorough": 300}},
     {"fn": "h_matches", "cases": MATCH_CASES, "quick_cases": MATCH_CASES[:2] + MATCH_CASES[-1:], "timeout": {"quick": 120, "thorough": 600}},
 ]
@@ -268,9 +271,12 @@ def expected_message(idx, b):
     if len(specs) != len(vals) or "%" in re.sub(r"%(?:0?\d*)[dcxX]|%%", "", msg):
         return msg                      # format / argument mismatch or not a valid format at all: the raw format
     out, pos, k = [], 0, 0
-    for m in re.finditer(r"%(0?)(\d*)([dcxX])", msg):
+    for m in re.finditer(r"%%|%(0?)(\d*)([dcxX])", msg):
         out += [ord(c) for c in msg[pos:m.start()]]
         pos = m.end()
+        if m.group(0) == "%%":
+            out.append(37)
+            continue
         v = vals[k]
         k += 1
         zero, width, typ = m.group(1) == "0", int(m.group(2) or 0), m.group(3)
@@ -297,7 +303,7 @@ def h_message() -> bool:
     post: _
     """
     base = {"E308": 0xE3080000, "0200": 0x02000000, "10m": 0x10000000, "1001": 0x10010000, "F20C": 0xF20C0000, "quote": 0x01040000,
-            "E226": 0xE2002600, "30pc": 0x30110000, "31y": 0x31110000}[CASE]
+            "E226": 0xE2002600, "30pc": 0x30110000, "31y": 0x31110000, "33pp": 0x33000000, "34pp": 0x34000000, "15lc": 0x15A40000}[CASE]
     lo = sym_bytes("lo", 2)
     b = [base >> 24, (base >> 16) & 0xFF, lo[0], lo[1]]
     if CASE == "10m":
@@ -306,6 +312,8 @@ def h_message() -> bool:
         b = [0xE2, lo[0], 0x26, lo[1]]           # parameter byte 2 carries the reported flag
     if CASE == "quote":
         b = [0x01, 0x04, 0x00, 0x00]
+    if CASE == "15lc":
+        b = [0x15, 0xA4, 0xC0, lo[1]]           # the table spells this wildcard-free pattern (15a4c0de) in lower case
     if CASE == "0200":
         assume(sym_all([lo[0] >= 0x20, lo[0] <= 0x7E, lo[1] >= 0x20, lo[1] <= 0x7E]))
     data = mkbytes(b"\x00\x01\x00\x02", b)
@@ -318,7 +326,9 @@ def h_message() -> bool:
         if spec_matches(pat, b):
             idx = k2
             break
-    conds = [len(lines) == 3, idx is not None]
+    conds = [len(lines) == 3, idx is not None or CASE == "15lc"]
+    if len(lines) == 3 and idx is None and CASE == "15lc":
+        conds.append(lines[2][23:] == "Undefined")
     if len(lines) == 3 and idx is not None:
         suffix = " - PEL entry created" if bool(is_reported_error(b)) else ""
         desc = lines[2][23:]
